@@ -101,6 +101,8 @@ def features(case):
                 f.add("diamond")
     if any(n["redirect"] is not None for n in nodes):
         f.add("redirect")
+    if any(n.get("premarked") and n["flag"] for n in nodes):
+        f.add("premarked-flagged-template")
     flagged = {n["name"] for n in nodes if n["flag"]}
     if flagged and any(R[a] & flagged and a not in flagged for a in R):
         f.add("flag-with-unflagged-ancestor")
@@ -128,10 +130,17 @@ def real(ctx, case):
     table = {}
     for n in case["nodes"]:
         title = PREFIX + n["name"]
+        # "premarked": the page already carries need_pre_expand when the
+        # analysis starts (add_page's own option; a store analysed before).
+        # Only flagged templates are premarked, so the least set of the
+        # statement stays well defined.
+        pre = bool(n.get("premarked")) and bool(n["flag"])
         if n["redirect"] is not None:
-            ctx.add_page(title, TNS, None, redirect_to=PREFIX + n["redirect"])
+            ctx.add_page(title, TNS, None, redirect_to=PREFIX + n["redirect"],
+                         need_pre_expand=pre)
         else:
-            ctx.add_page(title, TNS, "body of " + n["name"])
+            ctx.add_page(title, TNS, "body of " + n["name"],
+                         need_pre_expand=pre)
         table[title] = (set(n["uses"]), bool(n["flag"]))
     # noise outside the template namespace (same names, never observed)
     for n in case["nodes"][:2]:
@@ -190,7 +199,7 @@ def describe(case):
         if n["uses"]:
             s += " uses " + ",".join(sorted(n["uses"]))
         if n["flag"]:
-            s += " [flag]"
+            s += " [flag, premarked]" if n.get("premarked") else " [flag]"
         bits.append(s)
     return "; ".join(bits)
 
@@ -211,6 +220,9 @@ def exhaustive_cases():
                          "flag": flags[i], "redirect": None}
                         for i, a in enumerate(names)]
                 yield {"nodes": base}
+                if any(flags):
+                    # the same graph with every flagged template premarked
+                    yield {"nodes": [dict(x, premarked=True) for x in base]}
                 for tgt in names:
                     for rflag in (False, True):
                         for inc in range(1 << n):
@@ -226,7 +238,8 @@ def exhaustive_cases():
 def n_exhaustive():
     t = 0
     for n in (1, 2, 3):
-        t += (1 << (n * n)) * (1 << n) * (1 + n * 2 * (1 << n))
+        t += (1 << (n * n)) * ((1 << n) * (1 + n * 2 * (1 << n))
+                               + ((1 << n) - 1))
     return t
 
 
@@ -251,6 +264,10 @@ def graph_case(draw):
             nodes.append({"name": a, "uses": sorted(uses),
                           "flag": draw(st.integers(0, 3)) == 0,
                           "redirect": None})
+    if draw(st.integers(0, 2)) == 0:
+        for nd in nodes:
+            if nd["flag"] and draw(st.booleans()):
+                nd["premarked"] = True
     return {"nodes": nodes}
 
 
@@ -324,7 +341,9 @@ def run(run):
         f"({n_exhaustive()} cases; quick tier takes every {stride}th), plus "
         "Hypothesis graphs on 2-8 templates with up to 3 redirect pages, "
         "dangling includes and redirect targets, names with blanks / Unicode "
-        "/ lower-case initials. Oracle: the set of templates with "
+        "/ lower-case initials and case twins; in a share of the cases flagged "
+        "templates already carry need_pre_expand when the analysis starts. "
+        "Oracle: the set of templates with "
         "need_pre_expand afterwards equals the least fixed point of the "
         "flags under 'includes a marked template', plus redirect pages whose "
         "target is in it, plus targets of marked redirect pages; the "
